@@ -9,7 +9,7 @@
 (***************************************************************************)
 EXTENDS JetExec, Json, SequencesExt
 
-cNames == {"s", "x1", "x2", "x3", "k", "v", "e", "p", "r", "g", "q1", "q2", "q3"}
+cNames == {"s", "x1", "x2", "x3", "k", "v", "e", "p", "r", "g", "q1", "q2", "q3", "a", "b", "c"}
 
 T(id)            == St("text", id)
 P(id, e)         == [St("print", id) EXCEPT !.e = e]
